@@ -23,7 +23,11 @@ type c15Case struct {
 	Cfg      int     `json:"cfg"`
 	Threads  [][]int `json:"threads,omitempty"`  // operation indices per thread
 	Schedule []int   `json:"schedule,omitempty"` // choice prefix (default choice afterwards)
+	Cold     bool    `json:"cold,omitempty"`     // cold start: nothing was loaded or evaluated before the goroutines start (string API only)
 }
+
+// c15ColdOps: the operations that need no loaded template.
+var c15ColdOps = []int{5, 6, 7}
 
 var c15OpNames = []string{"String(ok)", "String(runtime error)", "String(unknown)", "Response(ok)", "Response(error)", "EvaluateString(ok)", "EvaluateString(error)", "EvaluateFile", "String(sink)", "String(assign,nil)", "String(assign2,nil)", "String(failloop)", "String(loops)"}
 
@@ -153,10 +157,30 @@ type c15World struct {
 	syncVars map[int]bool
 	varName  map[int]string
 	baseVec  map[string]uint64
+	// cold start (no load before the goroutines start): own baselines and write set, because lazily built
+	// package state is then built by the operations themselves
+	cold         bool
+	baselineCold map[[2]int]string
+	hotCold      map[int]bool
+}
+
+func (w *c15World) curHot() map[int]bool {
+	if w.cold {
+		return w.hotCold
+	}
+	return w.hot
+}
+
+func (w *c15World) base(op, tid int) string {
+	if w.cold {
+		return w.baselineCold[[2]int{op, tid}]
+	}
+	return w.baseline[[2]int{op, tid}]
 }
 
 func newC15World(cfg int) (*c15World, string) {
-	w := &c15World{cfg: cfg, tree: c16Tree(cfg), baseline: map[[2]int]string{}, hot: map[int]bool{}, syncVars: map[int]bool{}, varName: map[int]string{}}
+	w := &c15World{cfg: cfg, tree: c16Tree(cfg), baseline: map[[2]int]string{}, hot: map[int]bool{}, syncVars: map[int]bool{}, varName: map[int]string{},
+		baselineCold: map[[2]int]string{}, hotCold: map[int]bool{}}
 	w.tree.write()
 	for _, vi := range rt.Vars {
 		w.varName[vi.ID] = vi.Name
@@ -184,6 +208,18 @@ func newC15World(cfg int) (*c15World, string) {
 			rt.AccessHook = nil
 		}
 	}
+	for _, op := range c15ColdOps {
+		for tid := 0; tid < 3; tid++ {
+			rt.ResetAll()
+			rt.AccessHook = func(id int, kind byte) {
+				if kind != 'R' && !w.syncVars[id] {
+					w.hotCold[id] = true
+				}
+			}
+			w.baselineCold[[2]int{op, tid}] = c15Op(nil, w.tree, op, tid)
+			rt.AccessHook = nil
+		}
+	}
 	return w, ""
 }
 
@@ -194,9 +230,15 @@ func (w *c15World) fresh() (*textwire.Template, Outcome) {
 
 // exec runs one scheduled execution.
 func (w *c15World) exec(threads [][]int, prefix []int) (schedRun, map[string]uint64) {
-	tpl, lo := w.fresh()
-	if lo.Kind != KOut {
-		return schedRun{diverged: "load failed: " + lo.String()}, nil
+	var tpl *textwire.Template
+	if w.cold {
+		rt.ResetAll()
+	} else {
+		var lo Outcome
+		tpl, lo = w.fresh()
+		if lo.Kind != KOut {
+			return schedRun{diverged: "load failed: " + lo.String()}, nil
+		}
 	}
 	ops := make([][]func() string, len(threads))
 	for tid, seq := range threads {
@@ -205,7 +247,7 @@ func (w *c15World) exec(threads [][]int, prefix []int) (schedRun, map[string]uin
 			ops[tid] = append(ops[tid], func() string { return c15Op(tpl, w.tree, op, tid) })
 		}
 	}
-	s := newCoopSched(ops, w.hot, w.syncVars, prefix, func(id int) string { return w.varName[id] })
+	s := newCoopSched(ops, w.curHot(), w.syncVars, prefix, func(id int) string { return w.varName[id] })
 	s.run()
 	r := schedRun{trace: s.trace, races: s.raceList(), deadlock: s.deadlock, newHot: s.newHot, points: s.points, diverged: s.diverged}
 	for _, t := range s.threads {
@@ -226,7 +268,7 @@ func (w *c15World) judge(threads [][]int, r schedRun, vec map[string]uint64) (ok
 	}
 	for tid, seq := range threads {
 		for i, op := range seq {
-			want := w.baseline[[2]int{op, tid}]
+			want := w.base(op, tid)
 			got := "<missing>"
 			if i < len(r.results[tid]) {
 				got = r.results[tid][i]
@@ -243,7 +285,9 @@ func (w *c15World) judge(threads [][]int, r schedRun, vec map[string]uint64) (ok
 	if len(r.races) > 0 {
 		return false, "race/" + r.races[0], "no two unordered accesses to a package-level variable with at least one definite write (" + desc + ")", strings.Join(r.races, "; ")
 	}
-	if d := diffParts(w.baseVec, vec); len(d) > 0 {
+	if w.cold {
+		desc += " [cold start]" // lazily built package state legitimately differs from the loaded baseline: results and races decide
+	} else if d := diffParts(w.baseVec, vec); len(d) > 0 {
 		return false, "shared-state-modified/" + strings.Join(d, ","), "loaded ASTs, configuration and registry are unchanged after concurrent renders (" + desc + ")", "changed: " + strings.Join(d, ", ")
 	}
 	return true, "", "run-alone results, no race, shared state unchanged", "ok"
@@ -270,6 +314,7 @@ func c15Check(cs c15Case) (bool, string, string, string) {
 	if err != "" {
 		return false, "load-failed", "the fixed tree loads", err
 	}
+	w.cold = cs.Cold
 	// replay twice: identical observations before a failure is believed
 	r1, v1 := w.exec(cs.Threads, cs.Schedule)
 	r2, _ := w.exec(cs.Threads, cs.Schedule)
@@ -319,6 +364,27 @@ func c15RaceFreeMain(cfg int) {
 	if err != "" {
 		fmt.Println("load failed:", err)
 		os.Exit(3)
+	}
+	// cold phase: package state reset, nothing loaded, the string API called from several goroutines at once
+	for rep := 0; rep < 40; rep++ {
+		runtime.GOMAXPROCS([]int{16, 4, 2}[rep%3])
+		rt.ResetAll()
+		w.cold = true
+		var wg sync.WaitGroup
+		for g := 0; g < 4; g++ {
+			wg.Add(1)
+			go func(g int) {
+				defer wg.Done()
+				for k := 0; k < 2; k++ {
+					op := c15ColdOps[(g+k+rep)%len(c15ColdOps)]
+					if got, want := c15Op(nil, w.tree, op, g%3), w.baselineCold[[2]int{op, g % 3}]; got != want {
+						fmt.Printf("WRONG-RESULT-FREE-RUNNING %s (cold start): %q instead of %q\n", c15OpNames[op], clip(got, 120), clip(want, 120))
+					}
+				}
+			}(g)
+		}
+		wg.Wait()
+		w.cold = false
 	}
 	for _, procs := range []int{1, 4, 16} {
 		runtime.GOMAXPROCS(procs)
@@ -395,11 +461,13 @@ func c15Run(c *Ctx) {
 		worlds[cfg] = w
 		return w
 	}
+	coldRun := false
 	runScenario := func(cfg int, threads [][]int) bool {
 		w := world(cfg)
 		if w == nil {
 			return true
 		}
+		w.cold = coldRun
 		for attempt := 0; attempt < 4; attempt++ {
 			b := bound
 			if len(threads) == 2 {
@@ -417,14 +485,14 @@ func c15Run(c *Ctx) {
 					for i, p := range r.trace {
 						choices[i] = p.Chosen
 					}
-					cs := c15Case{Mode: "schedule", Cfg: cfg, Threads: threads, Schedule: choices}
+					cs := c15Case{Mode: "schedule", Cfg: cfg, Threads: threads, Schedule: choices, Cold: coldRun}
 					c.Report(sig, int64(len(threads))*1000000+int64(len(choices)), cs, exp, obs, "")
 				}
 				return r
 			}, func(choices []int, r schedRun) bool {
 				if len(r.newHot) > 0 {
 					for id := range r.newHot {
-						w.hot[id] = true
+						w.curHot()[id] = true
 					}
 					reclose = true
 					return false
@@ -497,6 +565,36 @@ func c15Run(c *Ctx) {
 			}
 		}
 	}
+	// cold start: the first calls of the process are concurrent calls of the string API (nothing loaded before)
+	coldRun = true
+	var coldSeqs [][]int
+	for _, a := range c15ColdOps {
+		coldSeqs = append(coldSeqs, []int{a})
+	}
+	for _, a := range c15ColdOps {
+		for _, b := range c15ColdOps {
+			coldSeqs = append(coldSeqs, []int{a, b})
+		}
+	}
+	for i := 0; i < len(coldSeqs); i++ {
+		if !c.Mine() {
+			continue
+		}
+		for j := i; j < len(coldSeqs); j++ {
+			if !runScenario(0, [][]int{coldSeqs[i], coldSeqs[j]}) {
+				return
+			}
+			c.Count("cold_start_scenarios", 1)
+			if c.Thorough() && len(coldSeqs[i]) == 1 && len(coldSeqs[j]) == 1 {
+				for k := 0; k < len(c15ColdOps); k++ {
+					if !runScenario(0, [][]int{coldSeqs[i], coldSeqs[j], coldSeqs[k]}) {
+						return
+					}
+				}
+			}
+		}
+	}
+	coldRun = false
 	// free-running pass under the race detector (supplementary; covers what the instrumenter cannot classify)
 	if c.Shard == 0 {
 		for _, cfg := range []int{0, 2} {
